@@ -206,6 +206,21 @@ FIFTH WAVE.  <out>/RegTbl.v (fixed text, trusted) and <out>/RegistrySrc.v: src/i
   `v.binary_search_by_key(&Reverse(p), |g| Reverse(KEY g)).unwrap_or_else(|e| e)` = Reg.bsearch_rev_key KEY p v, a
   transcription of core::slice::binary_search_by identical to the model's `bsearch` in Model/Registry.v except that
   the key function is a parameter (the search itself is NOT translated from source).
+
+SIXTH WAVE.  RegistrySrc.v now also has ContextInstances::{get, remove} (ties: coq/Proofs/SrcTie6P.v).  NOT translated:
+  rebuild, update; ActionData::trigger_events; ContextInstance::{update, trigger_removed}; delta_lerp, exponential_curve.
+  Additions to the subset: `let x = e?;` in an Option-valued function; `Some(e)`, `None`, `b.then_some(e)`;
+  closures with tuple patterns `|(a, b)|`, `|&(a, _)|`; `*x` on a reference to Copy data; `&[a, b]` slices (lists);
+  `match &VEC[i] {..}` in an Option-valued function (out of bounds, a panic, is rendered as None);
+  EXPECT MODE: a `&mut self` unit function containing `.expect(..)` returns option (new state): `let x = E.expect(..)`
+  = match E with Some x => .. | None => None; `let (a, b) = v.swap_remove(i)` = the element at i (None if out of
+  bounds) then v := swap_remove i v; `let x = match &mut VEC[i] { Variant { f, .. } => { stmts; value } }` is
+  continued inside each arm (x := value; the rebuilt element is written back with Reg.set_at; then the rest of the
+  function), out of bounds = None.
+  Table additions (RegTbl.v): Vec::remove(i) = remove_at, Vec::swap_remove(i) (transcribed as in Model/Registry.v),
+  Vec::is_empty, Vec::contains = existsb eqb.  Opaque parameters of RegistrySrc.v (Section variables): Cmds' and
+  trigger_removed' : inst -> Cmds' -> list Z -> Cmds' for ctx.trigger_removed(commands, time, entities) (the `time`
+  argument is fixed and not passed).
 """
 import sys, os, argparse
 from fractions import Fraction
@@ -767,7 +782,8 @@ class Parser(object):
                 self.expect(']')
                 e = Node('Index', t.line, recv=e, index=idx)
             elif self.at('?'):
-                self.fail("`?` operator")
+                ql = self.next().line
+                e = Node('Try', ql, expr=e)
             else:
                 return e
 
@@ -1646,6 +1662,14 @@ OPAQUE_FNS.update({'tp1_type_id': ("type_id'", 'Z'), 'tp2_prio': ("prio'", 'Z'),
 TYPE_PARAM_CONSTS = {'PRIORITY': ('tp2_prio', 'isize'), 'MODE': ('tp3_mode', 'ContextMode')}
 BEVY_CLOSURE_METHODS[('Iter', 'position')] = ('bool', 'optusize', 'Reg.position {f} {r}')
 BEVY_MUT_METHODS[('Vec', 'insert')] = ('usize+elem', 'Reg.insert_at {a0} {a1} {cur}')
+BEVY_MUT_METHODS[('Vec', 'remove')] = ('usize', 'Reg.remove_at {a0} {cur}')
+BEVY_MUT_METHODS[('Vec', 'swap_remove')] = ('usize', 'Reg.swap_remove {a0} {cur}')
+EFFECT_STMTS[('ContextInstance', 'trigger_removed')] = "trigger_removed'"
+REG_PRE = r"""Section RegistrySrc.
+(* OPAQUE PARAMETERS: the command queue and ctx.trigger_removed(commands, time, entities) (for the current `time`) *)
+Variable Cmds' : Type.
+Variable trigger_removed' : inst -> Cmds' -> list Z -> Cmds'.
+"""
 REG_V = r"""(* GENERATED by bin/rs2v.py (fixed text): TRUSTED table of std meanings used by src/input_context.rs. *)
 From BEI Require Import Model.Num Model.Registry.
 Local Open Scope Z_scope.
@@ -1685,6 +1709,20 @@ Definition bsearch_rev_key {A : Type} (key : A -> Z) (p : Z) (r : list A) : nat 
          | None => base
          end
   end.
+(* Vec::remove(i), Vec::swap_remove(i) (as in Model/Registry.v), Vec::is_empty *)
+Fixpoint remove_at {A : Type} (n : nat) (l : list A) : list A :=
+  match n, l with O, _ :: r => r | S n', y :: r => y :: remove_at n' r | _, [] => [] end.
+Definition swap_remove {A : Type} (n : nat) (l : list A) : list A :=
+  match nth_error l n with
+  | None => l
+  | Some _ =>
+      match rev l with
+      | [] => l
+      | lastx :: _ => if Nat.eqb (S n) (length l) then removelast l
+                      else removelast (set_at n lastx l)
+      end
+  end.
+Definition is_empty {A : Type} (l : list A) : bool := match l with [] => true | _ => false end.
 End Reg.
 """
 
@@ -1755,6 +1793,25 @@ def strip_ref(ty):
     if ty.startswith('&'):
         return ty[1:], 'ref'
     return ty, 'value'
+
+
+def split_tuple_type(ty):
+    """'(A,B<C,D>)' -> ['A', 'B<C,D>']"""
+    if not (ty.startswith('(') and ty.endswith(')')):
+        return None
+    out, depth, cur = [], 0, ''
+    for ch in ty[1:-1]:
+        if ch in '<([':
+            depth += 1
+        if ch in '>)]':
+            depth -= 1
+        if ch == ',' and depth == 0:
+            out.append(cur)
+            cur = ''
+        else:
+            cur += ch
+    out.append(cur)
+    return out
 
 
 class SrcFile(object):
@@ -2121,6 +2178,21 @@ def contains_continue(n):
     return False
 
 
+class FinalVars(list):
+    """result variables of a function whose `expect`s are rendered as option: Some (..) at the normal exit"""
+    pass
+
+
+def contains_expect(n):
+    if isinstance(n, Node):
+        if n.k == 'Method' and n.name == 'expect':
+            return True
+        return any(contains_expect(v) for v in n.__dict__.values())
+    if isinstance(n, (list, tuple)):
+        return any(contains_expect(v) for v in n)
+    return False
+
+
 class LoopVars(list):
     """state variables of a loop step followed by the element: rendered ((s1, s2), x)"""
     pass
@@ -2204,6 +2276,8 @@ class FnTranslator(object):
     def resolve_type(self, ty, line):
         if ty == 'Self':
             ty = self.self_type
+        if ty and ty.startswith('Option<&') and ty.endswith('>'):
+            ty = 'Option<' + ty[len('Option<&'):]
         return norm_type(ty) if ty else ty
 
     def coq_type(self, ty, line):
@@ -2292,10 +2366,16 @@ class FnTranslator(object):
         if f.self_kind == 'refmut' and ret == '()':
             self.ret = None
             names = ['self'] + self.out_vars
+            self.expect_mode = contains_expect(body) and not any(
+                self.getmut_idiom(st.init, env) for st in body.stmts if st.k == 'Let')
+            if self.expect_mode:
+                names = FinalVars(names)            # a failing `expect` (panic) is rendered as None
             text = self.seq(body.stmts, body.tail, env, ('vars', names))
             rtext = self.coq_type(self.self_type, f.line)
             if len(names) > 1:
                 rtext = '(' + ' * '.join([rtext] + [self.out_types[n] for n in names[1:]]) + ')'
+            if self.expect_mode:
+                rtext = 'option ' + rtext
         else:
             self.ret = ret
             self.pair = f.self_kind == 'refmut'        # result: (new self, value)
@@ -2332,6 +2412,8 @@ class FnTranslator(object):
 
     # ---------------- statements (continuation style)
     def vars_text(self, names, env):
+        if isinstance(names, FinalVars):
+            return 'Some ' + par(self.vars_text(list(names), env))
         if isinstance(names, LoopVars):
             st = names[:-1]
             inner = env[st[0]].coq if len(st) == 1 else '(' + ', '.join(env[n].coq for n in st) + ')'
@@ -2433,6 +2515,58 @@ class FnTranslator(object):
                 extra = [Node('Expr', b.tail.line, expr=b.tail)] if b.tail is not None else []
                 return self.seq(b.stmts + extra + rest, tail, benv, want)
             return fmt(cbranch(e.then, env_then), cbranch(e.els, env))
+        fin = (not value_mode) and isinstance(want[1], FinalVars)
+        if s.k == 'Raw':
+            nm_, t_ = s.fn(env)
+            return "let %s :=\n  %s in\n" % (env[nm_].coq, ind(t_)) + go_rest()
+        if (s.k == 'Let' and s.init.k == 'Method' and s.init.name == 'expect' and len(s.init.args) == 1
+                and not self.getmut_idiom(s.init, env)):
+            # let x = E.expect(".."): None (the panic) if E is None
+            if not fin or s.pat.k != 'PBind':
+                self.fail(s.line, "`expect` here")
+            t_, ty_ = self.expr(s.init.recv, env, None)
+            if not ty_.startswith('Option<'):
+                self.fail(s.line, "`expect` on a value of type `%s`" % ty_)
+            env[s.pat.name] = Var(ty_[7:-1], s.pat.name + "'", 'val')
+            return "match %s with\n| Some %s' =>\n    %s\n| None =>\n    None\nend" % (t_, s.pat.name, ind(go_rest(), 4))
+        if (s.k == 'Let' and s.pat.k == 'PTuple' and s.init.k == 'Method' and s.init.name == 'swap_remove'
+                and len(s.init.args) == 1):
+            # let (a, b) = v.swap_remove(i): the removed element (None = the panic when i is out of bounds)
+            if not fin:
+                self.fail(s.line, "`swap_remove` with a result here")
+            root, cur, vty, rb = self.place(s.init.recv, env, s.line)[:4]
+            it, ity = self.expr(s.init.args[0], env, 'usize')
+            comps = split_tuple_type(vty[4:-1]) if vty.startswith('Vec<') else None
+            if comps is None or len(comps) != len(s.pat.items) or ity != 'usize' or any(
+                    q.k not in ('PBind', 'PWild') for q in s.pat.items):
+                self.fail(s.line, "`let (..) = v.swap_remove(i)` on `%s`" % vty)
+            xs = []
+            for (q, qt) in zip(s.pat.items, comps):
+                if q.k == 'PBind':
+                    env[q.name] = Var(qt, q.name + "'", 'val')
+                    xs.append(q.name + "'")
+                else:
+                    xs.append('_')
+            new_ = rb("Reg.swap_remove %s %s" % (par(it), par(cur)))
+            return ("match nth_error %s %s with\n| Some (%s) =>\n    let %s :=\n      %s in\n    %s\n| None =>\n    None\nend"
+                    % (par(cur), par(it), ', '.join(xs), env[root].coq, ind(new_, 6), ind(go_rest(), 4)))
+        if (s.k == 'Let' and s.pat.k == 'PBind' and s.init.k == 'Match' and s.init.scrut.k == 'Ref' and s.init.scrut.mut
+                and s.init.scrut.expr.k == 'Index'):
+            if not fin:
+                self.fail(s.line, "`let x = match &mut v[i]` here")
+            return self.lens_let(s, rest, tail, env, want)
+        if s.k == 'Let' and s.pat.k == 'PBind' and s.init.k == 'Try':
+            # let x = e?;  in a function returning an Option
+            if not (value_mode and want[2] and self.ret and self.ret.startswith('Option<') and not self.pair):
+                self.fail(s.line, "`?` here")
+            t_, ty_ = self.expr(s.init.expr, env, None)
+            if not ty_.startswith('Option<'):
+                self.fail(s.line, "`?` on a value of type `%s`" % ty_)
+            env[s.pat.name] = Var(ty_[7:-1], s.pat.name + "'", 'val')
+            r_ = go_rest()
+            if r_[1] != self.ret:
+                self.fail(s.line, "body of type `%s` after `?`" % r_[1])
+            return ("match %s with\n| Some %s' =>\n    %s\n| None =>\n    None\nend" % (t_, s.pat.name, ind(r_[0], 4)), r_[1])
         if s.k == 'Let' and s.pat.k == 'PBind' and self.getmut_idiom(s.init, env):
             # let x = actions.get_mut(&self.key).expect(..): x is the stored entry, returned updated
             key_t, key_ty = self.expr(self.strip_ref(s.init.recv.args[0]), env, None)
@@ -2687,6 +2821,51 @@ class FnTranslator(object):
         out.append("| None =>\n    %s\nend" % cur)
         return root, rb('\n'.join(out))
 
+    def lens_let(self, s, rest, tail, env, want):
+        """let x = match &mut VEC[i] { Variant { f, .. } => { stmts; value } .. };  rest
+           each arm is continued by: x := value; write the rebuilt element back; rest.  Out of bounds = None."""
+        e = s.init
+        ix = e.scrut.expr
+        root, cur, vty, rb = self.place(ix.recv, env, e.line)[:4]
+        if not vty.startswith('Vec<') or vty[4:-1] not in ENUM_MAP:
+            self.fail(e.line, "`match &mut` on an element of `%s`" % vty)
+        ety = vty[4:-1]
+        it, ity = self.expr(ix.index, env, 'usize')
+        if ity != 'usize' or env[root].kind not in ('mut', 'refmut'):
+            self.fail(e.line, "unsupported `match &mut`")
+        decl = dict((v, (kd, pl)) for (v, kd, pl) in self.enum_of(ety, e.line))
+        out = ["match nth_error %s %s with" % (par(cur), par(it))]
+        for a in e.arms:
+            p = a.pat
+            if p.k != 'PStruct' or self.resolve_type(p.path[-2], p.line) != ety or p.path[-1] not in decl:
+                self.fail(a.line, "arm of a `match &mut`: expected a struct-variant pattern of `%s`" % ety)
+            kd, payload = decl[p.path[-1]]
+            given = dict(p.fields)
+            if kd != 'struct' or any(f not in dict(payload) for f in given) or any(fp.k != 'PBind' for fp in given.values()):
+                self.fail(a.line, "unsupported pattern in `match &mut`")
+            if a.body.k != 'Block' or a.body.tail is None:
+                self.fail(a.line, "arm of a `let x = match &mut` must be a block with a value")
+            env2 = dict(env)
+            fields = []
+            for (f, fty) in payload:
+                if f in given:
+                    v = given[f].name
+                    env2[v] = Var(fty, v + "'", 'mut')
+                    fields.append((v, None))
+                else:
+                    fields.append((None, "%s0'" % f))
+            cname = ENUM_MAP[ety][p.path[-1]][0]
+            pat = ' '.join([cname] + [(env2[v].coq if v else t) for (v, t) in fields])
+
+            def wb(env_, fields=fields, cname=cname):
+                ctor = ' '.join([cname] + [(env_[v].coq if v else t) for (v, t) in fields])
+                return root, rb("Reg.set_at %s (%s) %s" % (par(it), ctor, par(cur)))
+            stmts = (a.body.stmts + [Node('Let', a.line, pat=s.pat, ty=s.ty, init=a.body.tail),
+                                     Node('Raw', a.line, fn=wb)] + rest)
+            out.append("| Some (%s) =>\n    %s" % (pat, ind(self.seq(stmts, tail, env2, want), 4)))
+        out.append("| None =>\n    None\nend")
+        return '\n'.join(out)
+
     def getmut_idiom(self, e, env):
         return (e.k == 'Method' and e.name == 'expect' and e.recv.k == 'Method' and e.recv.name == 'get_mut'
                 and len(e.recv.args) == 1 and e.recv.recv.k == 'Path' and len(e.recv.recv.segs) == 1
@@ -2777,7 +2956,8 @@ class FnTranslator(object):
             if not e.args:
                 self.fail(e.line, "unexpected arguments of `%s`" % e.name)
             tr_, tcur, tty, trb = self.place(e.args[0], env, e.line)[:4]
-            rest_ = [par(self.expr(a, env, None)[0]) for a in e.args[1:]]
+            rest_ = [par(self.expr(a, env, None)[0]) for a in e.args[1:]
+                     if not (a.k == 'Path' and len(a.segs) == 1 and a.segs[0] in env and env[a.segs[0]].kind == 'time')]
             return tr_, trb(' '.join([EFFECT_STMTS[key], par(cur), par(tcur)] + rest_))
         if (ctor, e.name) in BEVY_MUT_METHODS:
             aty, tmpl = BEVY_MUT_METHODS[(ctor, e.name)]
@@ -2787,6 +2967,13 @@ class FnTranslator(object):
             if aty is None:
                 if e.args:
                     self.fail(e.line, "wrong number of arguments for `%s`" % e.name)
+            elif aty == 'usize':
+                if len(e.args) != 1:
+                    self.fail(e.line, "wrong number of arguments for `%s`" % e.name)
+                t0, ty0 = self.expr(e.args[0], env, 'usize')
+                if ty0 != 'usize':
+                    self.fail(e.line, "argument of type `%s`" % ty0)
+                args = {'a0': par(t0)}
             elif aty == 'usize+elem':
                 if len(e.args) != 2:
                     self.fail(e.line, "wrong number of arguments for `%s`" % e.name)
@@ -3033,6 +3220,11 @@ class FnTranslator(object):
         if k == 'Path':
             if len(e.segs) == 1:
                 nm = e.segs[0]
+                if nm == 'None' and nm not in env:
+                    if exp is None or not exp.startswith('Option<'):
+                        raise NeedExpected(e.line)
+                    self.coq_type(exp, e.line)
+                    return "None", exp
                 if nm not in env:
                     self.fail(e.line, "unknown variable `%s`" % nm)
                 if env[nm].kind in ('opaque', 'time', 'actions'):
@@ -3059,6 +3251,22 @@ class FnTranslator(object):
             if ty_ != 'isize':
                 self.fail(e.line, "Reverse of `%s`" % ty_)
             return t_, 'Reverse<isize>'
+        if k == 'Call' and e.fn.k == 'Path' and e.fn.segs == ['Some'] and len(e.args) == 1:
+            inner_exp = exp[len('Option<'):-1] if exp and exp.startswith('Option<') else None
+            t_, ty_ = self.expr(e.args[0], env, inner_exp)
+            return "Some %s" % par(t_), 'Option<%s>' % ty_
+        if k == 'Path' and e.segs == ['None'] and 'None' not in env:
+            if exp is None or not exp.startswith('Option<'):
+                raise NeedExpected(e.line)
+            self.coq_type(exp, e.line)
+            return "None", exp
+        if k == 'Ref' and not e.mut and e.expr.k == 'Array':
+            return self.expr(e.expr, env, exp)
+        if k == 'Array' and e.items:
+            parts = [self.expr(x, env, None) for x in e.items]
+            if any(p[1] != parts[0][1] for p in parts):
+                self.fail(e.line, "array literal")
+            return '[' + '; '.join(p[0] for p in parts) + ']', '[%s]' % parts[0][1]
         if k == 'VecLit':
             parts = [self.expr(x, env, None) for x in e.items]
             if not parts or any(p[1] != parts[0][1] for p in parts):
@@ -3183,6 +3391,8 @@ class FnTranslator(object):
                 x = e.expr
                 if x.k == 'Path' and len(x.segs) == 1 and x.segs[0] in env and env[x.segs[0]].kind == 'refmut':
                     return env[x.segs[0]].coq, env[x.segs[0]].ty
+                if x.k == 'Path' and len(x.segs) == 1 and x.segs[0] in env and env[x.segs[0]].kind == 'val':
+                    return self.expr(x, env, exp)      # `*x` on a reference to Copy data
                 if x.k == 'Field' or (x.k == 'Path' and x.segs == ['self']):
                     return self.expr(x, env, exp)      # `*self.field`, `*self`: copy out of a wrapper / reference
                 self.fail(e.line, "dereference")
@@ -3243,6 +3453,20 @@ class FnTranslator(object):
             if ty1 != ty2:
                 self.fail(e.line, "branches of types `%s` and `%s`" % (ty1, ty2))
             return fmt(t1, t2), ty1
+        if (k == 'Match' and e.scrut.k == 'Ref' and not e.scrut.mut and e.scrut.expr.k == 'Index'
+                and exp and exp.startswith('Option<')):
+            # match &VEC[i] { .. } in an Option-valued position: out of bounds (a panic) is rendered as None
+            ix = e.scrut.expr
+            vt, vty = self.expr(ix.recv, env, None)
+            it, ity = self.expr(ix.index, env, 'usize')
+            if not vty.startswith('Vec<') or ity != 'usize':
+                self.fail(e.line, "indexing `%s` by `%s`" % (vty, ity))
+            env2 = dict(env)
+            env2["elem#"] = Var(vty[4:-1], "elem'", 'val')
+            inner = Node('Match', e.line, scrut=Node('Path', e.line, segs=["elem#"]), arms=e.arms)
+            t_, ty_ = self.match(inner, env2, exp, ret_ok)
+            return ("match nth_error %s %s with\n| Some elem' =>\n    %s\n| None =>\n    None\nend"
+                    % (par(vt), par(it), ind(t_, 4)), ty_)
         if k == 'Match':
             return self.match(e, env, exp, ret_ok)
         if k == 'Block':
@@ -3313,13 +3537,26 @@ class FnTranslator(object):
 
     def closure(self, c, env, pty, exp):
         """closure with one parameter of type pty -> (Gallina fun, result type)"""
-        if c.k != 'Closure' or len(c.params) != 1 or c.params[0].k not in ('PBind', 'PWild'):
+        if c.k != 'Closure' or len(c.params) != 1 or c.params[0].k not in ('PBind', 'PWild', 'PTuple'):
             self.fail(c.line, "expected a closure with one simple parameter")
         env2 = dict(env)
         x = '_'
         if c.params[0].k == 'PBind':
             x = c.params[0].name + "'"
             env2[c.params[0].name] = Var(pty, x, 'val')
+        if c.params[0].k == 'PTuple':
+            comps = split_tuple_type(pty)
+            if comps is None or len(comps) != len(c.params[0].items) or any(
+                    q.k not in ('PBind', 'PWild') for q in c.params[0].items):
+                self.fail(c.line, "tuple pattern of a closure does not fit `%s`" % pty)
+            xs = []
+            for (q, qt) in zip(c.params[0].items, comps):
+                if q.k == 'PBind':
+                    env2[q.name] = Var(qt, q.name + "'", 'val')
+                    xs.append(q.name + "'")
+                else:
+                    xs.append('_')
+            x = "'(" + ', '.join(xs) + ')'
         for (nm, ln) in assigned_vars(c.body, []):
             self.fail(ln, "assignment inside a closure")
         if contains_return(c.body):
@@ -3361,7 +3598,13 @@ class FnTranslator(object):
             return rt, rty
         if ctor == 'Vec' and e.name == 'iter' and not e.args:
             return rt, 'Iter<%s>' % inner
-        if ctor == 'HashSet' and e.name == 'contains' and len(e.args) == 1:
+        if ctor == 'Vec' and e.name == 'is_empty' and not e.args:
+            return "Reg.is_empty %s" % par(rt), 'bool'
+        if rty == 'bool' and e.name == 'then_some' and len(e.args) == 1:
+            inner_exp = exp[len('Option<'):-1] if exp and exp.startswith('Option<') else None
+            t_, ty_ = self.expr(e.args[0], env, inner_exp)
+            return "if %s then Some %s else None" % (par(rt), par(t_)), 'Option<%s>' % ty_
+        if ctor in ('HashSet', 'Vec') and e.name == 'contains' and len(e.args) == 1:
             t, ty = self.expr(self.strip_ref(e.args[0]), env, inner)
             if ty != inner:
                 self.fail(e.line, "argument of type `%s`, expected `%s`" % (ty, inner))
@@ -3570,7 +3813,8 @@ EVENTS_FNS = ['new']
 TRACKER_FNS = ['new', 'state', 'value', 'events_blocked', 'overwrite', 'combine']
 DATA_FNS = ['update', 'state']
 REGISTRY_FNS = [('InstanceGroup', 'priority'), ('InstanceGroup', 'type_id'), ('InstanceGroup', 'new'),
-                ('ContextInstances', 'index'), ('ContextInstances', 'add')]
+                ('ContextInstances', 'index'), ('ContextInstances', 'add'), ('ContextInstances', 'get'),
+                ('ContextInstances', 'remove')]
 READER_FNS = [('ConsumedInput', 'reset'), ('InputReader', 'mod_keys_pressed'), ('InputReader', 'value'),
               ('InputReader', 'consume')]
 MODIF_FILES = [('scale.rs', 'Scale', 'struct', [], ['apply']),
@@ -3730,6 +3974,8 @@ def run(repo, outdir):
     w.load_enum(rg, 'InstanceGroup')
     emit_enum_helpers(w, o_reg, 'ContextMode', rg)
     emit_enum_helpers(w, o_reg, 'InstanceGroup', rg)
+    o_reg.pre = REG_PRE
+    o_reg.post = 'End RegistrySrc.'
     w.load_impls(rg, o_reg, 'InstanceGroup')
     w.load_impls(rg, o_reg, 'ContextInstances')
     for key in REGISTRY_FNS:
